@@ -203,20 +203,25 @@ def run(res):
             nrun += 1
             files2 = {key: w.read(f) for key, f in outs2.items()}
             compare(res, "case %s chunk %s stdin fragments %s" % (k, cs, frag), cmd, opts, nals, data, ec2, files2, parse_model(m), {"chunk_size": cs, "input": "stdin", "fragments": frag})
-    # thorough: the real 100 kB chunk size with large NALs around the boundary
-    if res.tier == "thorough":
-        for d in range(-4, 5):
-            frames = S.gen_frames(r, 4, el=True, rpu_pool=pool)
-            nals = S.flatten(frames)
-            big = S.SNal(H.sei_nal([(200, H.filler(r, 99000 + d))]))
-            nals2 = nals[:4] + [big] + nals[4:]
-            data = S.stream_bytes(r, nals2, sc="four", tz_prob=0)
-            m = C.model().run([model_line("single", {}, nals2, data)])[0]
+    # the real 100 kB read size (no hook override) with a large NAL ending next to the boundary: the
+    # hook chunk sizes cannot see a change of the constant itself or of its relation to the reader's
+    # own buffer (quick: three offsets, convert and demux; thorough: every offset -4..+4)
+    for d in (range(-4, 5) if res.tier == "thorough" else (-3, 1, 40)):
+        frames = S.gen_frames(r, 4, el=True, rpu_pool=pool)
+        nals = S.flatten(frames)
+        big = S.SNal(H.sei_nal([(200, H.filler(r, 99000 + d))]))
+        nals2 = nals[:4] + [big] + nals[4:]
+        data = S.stream_bytes(r, nals2, sc="four", tz_prob=0)
+        for cmd in (("convert", "demux") if d == 1 or res.tier == "thorough" else ("convert",)):
+            m = C.model().run([model_line(CFG[cmd], {}, nals2, data)])[0]
             inp = w.write("in.hevc", data)
-            args, outs = cli_args("convert", {}, inp, w)
+            args, outs = cli_args(cmd, {}, inp, w)
+            for f in outs.values():
+                if os.path.exists(w.path(f)):
+                    os.remove(w.path(f))
             ec, txt = cli.run(args, w.dir)
             nrun += 1
-            compare(res, "real chunk size d=%d" % d, "convert", {}, nals2, data, ec, {"main": w.read("out.hevc")}, parse_model(m), {"chunk_size": None, "input": "file"})
+            compare(res, "real chunk size d=%d %s" % (d, cmd), cmd, {}, nals2, data, ec, {key: w.read(f) for key, f in outs.items()}, parse_model(m), {"chunk_size": None, "input": "file"})
     res.coverage.update({
         "evaluations": nrun + len(lines),
         "distinct_nontrivial": len(cases),
